@@ -125,6 +125,9 @@ def Flow.WF (f : Flow) : Prop :=
   f.src.drop f.slen = List.replicate (maxEndpointSize - f.slen) 0 ∧
   f.dst.drop f.dlen = List.replicate (maxEndpointSize - f.dlen) 0
 
+instance (e : Endpoint) : Decidable e.WF := by unfold Endpoint.WF; exact inferInstance
+instance (f : Flow) : Decidable f.WF := by unfold Flow.WF; exact inferInstance
+
 /-- The zero values `Endpoint{}` / `Flow{}` (what a failed FlowFromEndpoints returns, and what
     `var e Endpoint` is). -/
 def Endpoint.zero : Endpoint := { typ := 0, len := 0, raw := zeroArr }
